@@ -109,7 +109,7 @@ Proof.
   intros [Hs Hd _ _ _ _ _ _]. unfold rook_to, rook_from, ep_victim.
   assert (Er : rank_of (src m) = home_rank (turn p)) by (rewrite Hs; apply rank_of_mk; lia).
   rewrite Er. destruct Hd as [Hd|Hd]; rewrite Hd.
-  - rewrite (file_of_mk _ 6) by lia. cbn [N.eqb Pos.eqb]. rewrite Hs. lia.
+  - rewrite (file_of_mk _ 6) by lia. change (6 =? 6) with true. cbn iota. rewrite Hs. lia.
   - rewrite (file_of_mk _ 2) by lia. change (2 =? 6) with false. cbn iota. rewrite Hs. lia.
 Qed.
 
